@@ -39,6 +39,20 @@ CHECKS["C02"] = (
     "bounded-exhaustive input/configuration enumeration vs independent "
     "reference model")
 
+CHECKS["C03"] = (
+    "4/C03",
+    "Bounded-exhaustive exploration of calc_cross_sections / "
+    "calc_scat_matrix on the product alphabet relative index (real, weakly "
+    "and strongly absorbing) x size parameter 1e-3..500 x medium index x "
+    "wavelength x polarization, layered spheres, one-sphere and two-sphere "
+    "clusters: energy balance, sign/range constraints, optical theorem "
+    "across the two entry points, exact Gauss-Legendre solid-angle integrals "
+    "(polynomial integrand, so a deterministic identity), textbook series "
+    "from the mpmath table, Rayleigh limit, k^2 scaling.",
+    "Trusted: mpmath table, numpy leggauss.  Tolerances >=30x above the "
+    "measured floor; alphabet values only.",
+    "bounded-exhaustive input enumeration vs independent reference model")
+
 NOT_YET = {}
 
 
